@@ -154,7 +154,7 @@ theorem mem_filterByScope {dc : Bytes} {ds : List Doc} {d : Doc} (h : d ∈ filt
 theorem policiesFor_sub (U : Doc → Prop) (hsvc : ∀ x, U (svcDoc x)) (hnode : ∀ x, U (nodeDoc x))
     (s : Store) (hs : ∀ d ∈ s.docs, U d) (dc : Bytes) (t : Token) : ∀ d ∈ policiesFor s dc t, U d := by
   intro d hd
-  unfold policiesFor at hd
+  unfold policiesFor policiesForV at hd
   split at hd
   · cases hd
   · have := mem_filterByScope hd
@@ -204,7 +204,7 @@ theorem policiesFor_congr (s s' : Store) (dc : Bytes) (t : Token)
     (hd : ∀ pid ∈ t.policies ++ (t.roles.filterMap s.role).flatMap (·.policies), s.doc pid = s'.doc pid) :
     policiesFor s dc t = policiesFor s' dc t := by
   have e : t.roles.filterMap s.role = t.roles.filterMap s'.role := filterMap_congr' hr
-  unfold policiesFor
+  unfold policiesFor policiesForV
   rw [← e]
   have e2 : (dedupeSorted (t.policies ++ (t.roles.filterMap s.role).flatMap (·.policies))).filterMap s.doc =
       (dedupeSorted (t.policies ++ (t.roles.filterMap s.role).flatMap (·.policies))).filterMap s'.doc :=
